@@ -200,6 +200,25 @@ func c03Units(tier string) []hx.Unit {
 		}
 	}
 	units = append(units, c03ChainTimeUnits(tier)...)
+	// sync committee duties: "one job per duty slot that has not yet passed ... when started or restarted at
+	// any point" is explored by the sync-period window units shared with C15 (every start instant of the
+	// first periods x period length x fork epoch x membership pattern)
+	for _, u := range c15Units(tier) {
+		if !strings.HasPrefix(u.Name, "C15/window/") {
+			continue
+		}
+		u := u
+		inner := u.Check
+		u.Name = "C03/sync" + strings.TrimPrefix(u.Name, "C15")
+		u.Check = func(r *mc.Result) mc.Verdict {
+			v := inner(r)
+			if v.Key != "" {
+				v.Key = "C03/sync/" + strings.TrimPrefix(v.Key, "C15/")
+			}
+			return v
+		}
+		units = append(units, u)
+	}
 	return units
 }
 
@@ -503,10 +522,10 @@ func init() {
 		ID:    "C03",
 		Title: "Every duty is scheduled once, for the right time, across restarts and reorgs",
 		Rule: "controller part: real controller + real scheduler + real chain time (4 slots per epoch) started at 4 instants of an epoch (epoch start, mid-slot, just inside the second slot, last slot) x 6 attester and 4 proposer duty-table pairs (version before / after a reorg: same, moved, dropped, with out-of-epoch duties, dense) x head-event scripts (baseline + 1..2 events, each in one of the next 4 slots, 1 s or 6 s into the slot, roots same / previous changed / current changed), run for three epochs; deviation-bounded schedules (quick 0, thorough 1); the oracle is computed from the log of the beacon node's answers: per slot at most one Attest / Propose, exactly one with exactly the obtained validators at slot start + delay when the slot was still in the future, none for withdrawn or out-of-epoch duties, nothing for the slot in progress at start-up; " +
-			"chain-time part: genesis {now, 1 s ago, 1000 h ago, in 30 s} x slot duration {1,2,6,12 s} x slots per epoch {1,2,4,32} x 40 (thorough 130) slots x 4 instants per slot for the conversion identities; non-trivial = a reorg happened or vouch started inside an epoch",
+			"chain-time part: genesis {now, 1 s ago, 1000 h ago, in 30 s} x slot duration {1,2,6,12 s} x slots per epoch {1,2,4,32} x 40 (thorough 130) slots x 4 instants per slot for the conversion identities; sync part: the sync-period window units of C15 (start instants x period length x fork epoch x membership); non-trivial = a reorg happened or vouch started inside an epoch",
 		Assumptions: []string{
 			"vouch keeps no persistent state, so a restart is a start instant",
-			"sync committee scheduling windows are C15's subject",
+			"the sync committee part re-uses the period-window units of C15 (same world, same reference window)",
 			"duties for a slot already in progress when they are obtained may or may not be scheduled, except at start-up where they must not",
 		},
 		Units:         c03Units,
